@@ -172,6 +172,7 @@ std::string prop_generate(Tape & t, int size) {
 namespace {
 
 struct Ctx {
+    std::string known;      // id of an open known finding this case is an instance of
     bool file0_close_failed = false; std::vector<int32_t> close_errors; int rd_file[2] = {-1, -1};
     long edge_stats[5] = {0, 0, 0, 0, 0};
     long rd_calls = 0, rd_calls_no_reader = 0, rd_calls_fsr_with_data = 0, edge_windows = 0, rd_open_skipped_writer_open = 0;
@@ -222,6 +223,7 @@ void exec_call(Ctx & x, const Call & c) {
         // queue everything first so that "file bytes unchanged" is observable for the threaded writer too
         if (x.w.twr && f != "flush") jls_twr_flush(x.w.twr);
         std::vector<uint8_t> before = vfs::get(FILES[0]);
+        uint64_t cap_hits_at_call = vfs::cap_hits();
         bool must_reject = false, may_reject = true;
         CStr cs;
         if (f == "source") {
@@ -264,11 +266,25 @@ void exec_call(Ctx & x, const Call & c) {
             for (size_t k = 0; k < nbytes; ++k) hb.p[k] = (uint8_t) (mix64((uint64_t) A(3), k) >> 9);
             if (defined && dt->kind == 'f') memset(hb.p, 0, nbytes);
             // gaps would write as many fill samples as the gap is long: keep them bounded
-            if (defined && x.next_id.count(id) && ((__int128) sid - (__int128) x.next_id[id]) > 200000) sid = x.next_id[id] + 200000;
-            if (defined && !x.next_id.count(id) && n > 0) x.next_id[id] = sid;
+            // gaps write as many fill samples as the gap is long: keep them bounded, measured from where the LIBRARY's signal ends
+            // (x.next_id is only updated by accepted calls; it used to be set by rejected ones too, which let one astronomic gap
+            // through - that accident is now the confirming replay of KF-C10-1, corpus/C10/gap-fill-unbounded.json)
+            bool explicit_far = false;
+            if (defined && x.next_id.count(id) && ((__int128) sid - (__int128) x.next_id[id]) > 200000) {
+                if (A(4) == 777) explicit_far = true;            // replay marker: keep the astronomic gap
+                else sid = x.next_id[id] + 200000;
+            }
+            uint64_t cap_before = vfs::cap_hits();
             if (f == "fsr_f32") rc = x.w.twr ? jls_twr_fsr_f32(x.w.twr, (uint16_t) A(0), sid, (const float *) hb.p, (uint32_t) n) : jls_wr_fsr_f32(x.w.wr, (uint16_t) A(0), sid, (const float *) hb.p, (uint32_t) n);
             else rc = x.w.twr ? jls_twr_fsr(x.w.twr, (uint16_t) A(0), sid, hb.p, (uint32_t) n) : jls_wr_fsr(x.w.wr, (uint16_t) A(0), sid, hb.p, (uint32_t) n);
-            if (!rc && defined && n > 0) { ++x.data_ok; if (sid + n > x.next_id[id]) x.next_id[id] = sid + n; }
+            if (!rc && defined && n > 0) { ++x.data_ok; if (!x.next_id.count(id) || sid + n > x.next_id[id]) x.next_id[id] = sid + n; }
+            if ((vfs::cap_hits() > cap_before || vfs::budget_exceeded()) && nbytes < (1u << 20)) {
+                // a call that was handed less than 1 MiB of samples issued more than 5e6 backend operations or wrote until the
+                // backend (256 MiB cap) was full: on a real disk it would not terminate in any practical sense.  Known cause: a gap of astronomic length is not refused (KF-C10-1);
+                // any other runaway is a violation.
+                x.fail("runaway_write", strf("%s(sig %d, sample id %lld, %lld samples) returned %d %s after more than 5e6 backend operations / writing until the backend was full", f.c_str(), id, (long long) sid, (long long) n, rc, ec_name(rc)));
+                if (explicit_far) x.known = "KF-C10-1";
+            }
             // the threaded writer knows the sample size of every defined FSR signal: an undefined one, or the f32 call on a signal
             // whose samples are not 32 bits wide, must be reported by the call itself (the writer thread has no way to report it)
             if (x.w.twr) must_reject = (!defined && n > 0) || (f == "fsr_f32" && defined && dt->bits != 32 && n > 0);
@@ -308,7 +324,9 @@ void exec_call(Ctx & x, const Call & c) {
             if (x.w.twr) jls_twr_flush(x.w.twr);
             // the "unchanged file" clause is about calls rejected for what they ask (ids, types, duplicates, ranges);
             // a call that runs out of memory half-way (huge definition parameters) may have appended chunks already
-            if (f != "flush" && rc != JLS_ERROR_NOT_ENOUGH_MEMORY && vfs::get(FILES[0]) != before) x.fail("rejected_changed_file", strf("call %s returned %d %s but changed the file bytes", mj::dump(call_json(c)).substr(0, 240).c_str(), rc, ec_name(rc)));
+            // ... and so may a call that ran into a full disk (IO with the VFS size cap hit during this call)
+            bool disk_full = (rc == JLS_ERROR_IO) && (vfs::cap_hits() > cap_hits_at_call || vfs::budget_exceeded());
+            if (f != "flush" && rc != JLS_ERROR_NOT_ENOUGH_MEMORY && !disk_full && vfs::get(FILES[0]) != before) x.fail("rejected_changed_file", strf("call %s returned %d %s but changed the file bytes", mj::dump(call_json(c)).substr(0, 240).c_str(), rc, ec_name(rc)));
         }
     } else if (f == "rd_open") {
         int r = (int) A(0) & 1;
@@ -421,7 +439,7 @@ CaseOutcome prop_execute(const std::string & case_json) {
     for (auto & r : x.rd) r.close();
     if (x.raw) { jls_raw_close(x.raw); x.raw = nullptr; }
     if (x.err.empty() && vfs::open_fds() != 0) x.fail("fd_leak", strf("%d backend descriptors still open after every instance was closed", vfs::open_fds()));
-    if (!x.err.empty()) oc.fail(x.clause, x.err);
+    if (!x.err.empty()) { oc.fail(x.clause, x.err); oc.known = x.known; }
     oc.nontrivial = x.rejected > 0 && x.data_ok > 0;
     oc.counters.push_back({"reader_calls", x.rd_calls});
     oc.counters.push_back({"reader_calls_without_an_open_reader", x.rd_calls_no_reader});
